@@ -480,6 +480,8 @@ def random_mode_comment(r, p=0.5, allow=("return-mode", "unmatched-mode", "print
         out += "unmatched-mode: " + r.choice(["keep", "keep", "no-keep"]) + " "
     if "print-mode" in allow and r.random() < 0.2:
         out += "print-mode: " + r.choice(["default", "no-default"]) + " "
+    if "run-mode" in allow and r.random() < 0.15:
+        out += "run-mode: " + r.choice(["no-run", "no-run", "run"]) + " "
     if "validation-mode" in allow and r.random() < 0.15:
         out += "validation-mode: " + r.choice(["no-raise, no-stop", "print, no-raise", "no-print, no-raise"]) + " "
     return out
